@@ -170,7 +170,12 @@ def run_case(c):
     want = dense0.to(torch.complex128) if want_dtype.is_complex else dense0
     bound = ref.absbound(cores0)
     if same_dtype:
-        viol = check_tt(y, want, site, want_dtype, True, bound, ttm=meta0[0], full_exact=False)
+        # same dtype: the copy must hold bit-identical cores (stronger than comparing dense values, and independent of
+        # how a lazily conjugated view is contracted)
+        viol = check_tt(y, want, site, want_dtype, False, bound, ttm=meta0[0])
+        if isinstance(y, TT) and not viol and (len(y.cores) != len(cores0) or any(
+                not torch.equal(a.detach(), b) for a, b in zip(y.cores, cores0))):
+            viol.append(V(site + '.cores_not_bit_identical', ''))
     else:
         lo = want_dtype if ref.unit_roundoff(want_dtype) > ref.unit_roundoff(x.cores[0].dtype) else x.cores[0].dtype
         viol = check_tt(y, want, site, want_dtype, False, bound * 4, ttm=meta0[0], dtype_ref=lo)
